@@ -195,6 +195,10 @@ class Wire:
             rets = [e for e in evs if e[0] in ("ret", "retcall")]
             if rets and rets[-1][0] == "ret" and rets[-1][1] == "Err":
                 continue
+            if any(e[0] == "ret" and e[1] == "Err" for e in rets[:-1]):
+                # the failure exit of an inlined helper (its `?`) followed by a success exit of the caller: with the helper's result
+                # propagated by `?` this is not a path of the program (the event paths are not path-sensitive)
+                continue
             out = []
             for e in evs:
                 if e[0] == "retcall":
@@ -277,6 +281,13 @@ class Wire:
             self.und(where, "no %s impl body %s" % (side, bname))
             res = [Seg(name="?", w=None, cls="undecidable")]
         else:
+            # private helpers of the type's module (a `WireCode::read`, a `RawText::read` phase) are part of the hand-written codec
+            from mirq import inline_calls
+            tpath = bname[1:].split(" as ")[0] if bname.startswith("<") else bname
+            modp = tpath.rsplit("::", 1)[0] + "::"
+            ib = inline_calls(body, lambda d, modp=modp: d.startswith(modp) and "{closure" not in d and not d.startswith("<"), depth=3)
+            if ib is not body:
+                body = ib
             try:
                 seqs = self.mir_events(body, side)
             except Undecidable as e:
